@@ -5,31 +5,9 @@
    that the action of every rule finds exactly what its right-hand side leaves and leaves what its left-hand side declares:
    no `ok_or_else(err_pop)` failure, no out-of-bounds index into the value stack, no node silently dropped by an `if let`. *)
 From Coq Require Import List NArith ZArith Bool Arith String Lia FMapPositive.
-From DV Require Import Gen.LalrTables C06.Lr C06.Actions.
+From DV Require Import Gen.LalrTables C06.Lr C06.Actions C06.ActionsKinds.
 Set Warnings "-unused-intro-pattern".
 Import ListNotations.
-
-(* ------------------------------------------------------------------ node kinds: what the actions test with `if let` *)
-Inductive kind :=
-| KOther | KCommaList | KContext | KContextType | KExpressionList | KParamTypes | KIterationContexts
-| KNamedParams | KPositionalParams | KQuantifiedContexts | KFormalParams | KQualifiedName.
-
-Definition kind_of (n : ast) : kind :=
-  match n with
-  | ACommaList _ => KCommaList | AContext _ => KContext | AContextType _ => KContextType | AExpressionList _ => KExpressionList
-  | AParamTypes _ => KParamTypes | AIterationContexts _ => KIterationContexts | ANamedParams _ => KNamedParams
-  | APositionalParams _ => KPositionalParams | AQuantifiedContexts _ => KQuantifiedContexts | AFormalParams _ => KFormalParams
-  | AQualifiedName _ => KQualifiedName
-  | _ => KOther
-  end.
-
-Definition kind_n (k : kind) : nat :=
-  match k with
-  | KOther => 0 | KCommaList => 1 | KContext => 2 | KContextType => 3 | KExpressionList => 4 | KParamTypes => 5
-  | KIterationContexts => 6 | KNamedParams => 7 | KPositionalParams => 8 | KQuantifiedContexts => 9 | KFormalParams => 10
-  | KQualifiedName => 11
-  end.
-Definition kind_eqb (a b : kind) : bool := Nat.eqb (kind_n a) (kind_n b).
 
 Lemma kind_eqb_eq : forall a b, kind_eqb a b = true <-> a = b.
 Proof.
@@ -38,13 +16,6 @@ Proof.
   - intros ->. unfold kind_eqb. apply Nat.eqb_refl.
 Qed.
 
-Fixpoint kinds_eqb (a b : list kind) : bool :=
-  match a, b with
-  | [], [] => true
-  | x :: a', y :: b' => kind_eqb x y && kinds_eqb a' b'
-  | _, _ => false
-  end.
-
 Lemma kinds_eqb_eq : forall a b, kinds_eqb a b = true <-> a = b.
 Proof.
   induction a as [|x a IH]; destruct b as [|y b]; cbn; split; intro H; try reflexivity; try discriminate H.
@@ -52,109 +23,8 @@ Proof.
   - inversion H; subst. apply andb_true_iff. split; [apply kind_eqb_eq; reflexivity | apply IH; reflexivity].
 Qed.
 
-(* ------------------------------------------------------------------ abstract token values: what the actions test on the value stack *)
-Inductive aval := AVName | AVNameDateTime | AVBuiltIn | AVNumeric | AVString | AVBoolean | AVNull | AVAny.
-
-Definition vmatch (a : aval) (v : tval) : Prop :=
-  match a with
-  | AVName => exists n, v = VName n
-  | AVNameDateTime => exists n, v = VNameDateTime n
-  | AVBuiltIn => exists n, v = VBuiltInTypeName n
-  | AVNumeric => exists b c, v = VNumeric b c
-  | AVString => exists s, v = VString s
-  | AVBoolean => exists b, v = VBoolean b
-  | AVNull => v = VTok tok_Null
-  | AVAny => True
-  end.
-
-Definition aval_n (a : aval) : nat :=
-  match a with AVName => 0 | AVNameDateTime => 1 | AVBuiltIn => 2 | AVNumeric => 3 | AVString => 4 | AVBoolean => 5 | AVNull => 6 | AVAny => 7 end.
-Definition aval_eqb (a b : aval) : bool := Nat.eqb (aval_n a) (aval_n b).
-
 Lemma aval_eqb_eq : forall a b, aval_eqb a b = true -> a = b.
 Proof. destruct a, b; cbn; intro H; try reflexivity; discriminate H. Qed.
-
-Definition aidx (avs : list aval) (k : nat) : option aval := match k with O => None | S j => nth_error avs j end.
-
-(* ------------------------------------------------------------------ the actions on kinds; None = the action would fail, index out of
-   bounds, drop a node, or test something the known part of the stacks does not determine *)
-Definition apop1 (k : kind) (ks : list kind) : option (list kind) := match ks with _ :: st => Some (k :: st) | [] => None end.
-Definition apop2 (k : kind) (ks : list kind) : option (list kind) := match ks with _ :: _ :: st => Some (k :: st) | _ => None end.
-Definition apop3 (k : kind) (ks : list kind) : option (list kind) := match ks with _ :: _ :: _ :: st => Some (k :: st) | _ => None end.
-
-Definition atail (kc : kind) (ks : list kind) : option (list kind) :=
-  match ks with
-  | [] => None
-  | k1 :: st => if kind_eqb k1 kc then match st with _ :: st' => Some (kc :: st') | [] => None end else Some (kc :: st)
-  end.
-
-Definition apop_if (kc kout : kind) (ks : list kind) : option (list kind) :=
-  match ks with k1 :: st => if kind_eqb k1 kc then Some (kout :: st) else None | [] => None end.
-
-Definition ahas (av : option aval) (want : aval) : bool := match av with Some a => aval_eqb a want | None => false end.
-
-Definition apush_if (av : option aval) (want : aval) (k : kind) (ks : list kind) : option (list kind) :=
-  if ahas av want then Some (k :: ks) else None.
-
-Definition aapply (a : act) (len : nat) (avs : list aval) (ks : list kind) : option (list kind) :=
-  match a with
-  | Act_addition | Act_comparison_eq | Act_comparison_ge | Act_comparison_gt | Act_comparison_in | Act_comparison_le
-  | Act_comparison_lt | Act_comparison_nq | Act_conjunction | Act_context_entry | Act_disjunction | Act_division | Act_every
-  | Act_exponentiation | Act_filter | Act_for | Act_function_definition | Act_function_invocation | Act_function_type
-  | Act_instance_of | Act_interval | Act_iteration_context_value_single | Act_multiplication | Act_quantified_expression
-  | Act_some | Act_subtraction => apop2 KOther ks
-  | Act_between | Act_if | Act_iteration_context_value_range => apop3 KOther ks
-  | Act_between_begin | Act_context_begin | Act_context_end | Act_every_begin | Act_for_begin | Act_formal_parameters_begin
-  | Act_iteration_context_variable_name_begin | Act_quantified_expression_variable_name_begin | Act_some_begin | Act_type_name
-  | Act_unary_tests_begin => Some ks
-  | Act_comparison_unary_ge | Act_comparison_unary_gt | Act_comparison_unary_le | Act_comparison_unary_lt
-  | Act_function_body | Act_function_body_external | Act_function_invocation_no_parameters | Act_list_type | Act_negation
-  | Act_range_type => apop1 KOther ks
-  | Act_built_in_type_name => apush_if (aidx avs 1) AVBuiltIn KOther ks
-  | Act_context_entry_tail => atail KContext ks
-  | Act_context_type_entry | Act_formal_parameter_with_type =>
-    match ks with _ :: st => if ahas (aidx avs len) AVName then Some (KOther :: st) else None | [] => None end
-  | Act_context_type_entry_tail => atail KContextType ks
-  | Act_empty_context => Some (KContext :: ks)
-  | Act_expression_list_tail => atail KExpressionList ks
-  | Act_formal_parameter_without_type => apush_if (aidx avs len) AVName KOther ks
-  | Act_formal_parameters_empty => Some (KFormalParams :: ks)
-  | Act_formal_parameters_first => apop1 KFormalParams ks
-  | Act_formal_parameters_tail => match ks with _ :: st => apop_if KFormalParams KFormalParams st | [] => None end
-  | Act_function_type_parameters_empty => Some (KParamTypes :: ks)
-  | Act_function_type_parameters_tail => atail KParamTypes ks
-  | Act_interval_end => match aidx avs 1 with Some _ => apop1 KOther ks | None => None end
-  | Act_interval_start => match aidx avs len with Some _ => apop1 KOther ks | None => None end
-  | Act_iteration_context_variable_name | Act_quantified_expression_variable_name | Act_key_name | Act_name =>
-    apush_if (aidx avs 1) AVName KOther ks
-  | Act_iteration_contexts_tail => atail KIterationContexts ks
-  | Act_key_string | Act_literal_at | Act_literal_string => apush_if (aidx avs 1) AVString KOther ks
-  | Act_list => apop_if KCommaList KOther ks
-  | Act_list_empty => Some (KCommaList :: ks)
-  | Act_list_tail => atail KCommaList ks
-  | Act_literal_boolean => apush_if (aidx avs 1) AVBoolean KOther ks
-  | Act_literal_date_time => apush_if (aidx avs 2) AVNameDateTime KOther ks
-  | Act_literal_null => apush_if (aidx avs 1) AVNull KOther ks
-  | Act_literal_numeric => apush_if (aidx avs 1) AVNumeric KOther ks
-  | Act_named_parameter => if ahas (aidx avs 3) AVName then apop1 KOther ks else None
-  | Act_named_parameters_tail => atail KNamedParams ks
-  | Act_path => match ks with _ :: st => if ahas (aidx avs 1) AVName then Some (KOther :: st) else None | [] => None end
-  | Act_path_names => if ahas (aidx avs 3) AVName && ahas (aidx avs 1) AVName then Some (KOther :: ks) else None
-  | Act_positional_parameters_tail => atail KPositionalParams ks
-  | Act_qualified_name => apush_if (aidx avs 1) AVName KQualifiedName ks
-  | Act_qualified_name_tail => if ahas (aidx avs 3) AVName then apop_if KQualifiedName KQualifiedName ks else None
-  | Act_quantified_expressions_tail => atail KQuantifiedContexts ks
-  | Act_unary_tests_irrelevant => Some (KOther :: ks)
-  | Act_unary_tests_negated => apop_if KExpressionList KOther ks
-  end.
-
-(* ------------------------------------------------------------------ typing of the concrete stacks (top first) *)
-Definition ntyped (ks : list kind) (ns : list ast) : Prop := map kind_of (firstn (List.length ks) ns) = ks.
-Definition vtyped (avs : list aval) (vs : list tval) : Prop := Forall2 vmatch avs (firstn (List.length avs) vs).
-
-(* the action succeeds, leaves a stack whose known part has the kinds ks', and does not touch what lies below the known part *)
-Definition sound_step (ks : list kind) (ns : list ast) (r : ares) (ks' : list kind) : Prop :=
-  exists ns', r = ROk ns' /\ ntyped ks' ns' /\ skipn (List.length ks') ns' = skipn (List.length ks) ns.
 
 Lemma ntyped_nil : forall ns, ntyped [] ns.
 Proof. intro ns. reflexivity. Qed.
@@ -184,10 +54,6 @@ Proof.
   intros avs vs k want H Hh. unfold ahas in Hh. destruct (aidx avs k) as [a|] eqn:E; [|discriminate Hh].
   apply aval_eqb_eq in Hh. subst a. exact (vtyped_idx _ _ _ _ H E).
 Qed.
-
-(* ------------------------------------------------------------------ the `if let AstNode::K(..)` tests against kinds *)
-Definition is_spec (is_k : ast -> option (list ast)) (kc : kind) : Prop :=
-  forall n, if kind_eqb (kind_of n) kc then exists l, is_k n = Some l else is_k n = None.
 
 Ltac is_spec_tac := let n := fresh "n" in intro n; destruct n; cbn; try reflexivity; eexists; reflexivity.
 Lemma is_comma_list_spec : is_spec is_comma_list KCommaList. Proof. is_spec_tac. Qed.
@@ -328,145 +194,6 @@ Proof.
     destruct (ahas _ _) eqn:Hh in Ha; [|discriminate Ha]. use_val Hv Hh.
     eapply pop_if_sound; [| | exact Ha | exact Hn]; [spec_tac | intros; reflexivity].
 Qed.
-
-(* ------------------------------------------------------------------ declared effects of the grammar symbols on the node stack
-   (P, Q): the symbol consumes nodes of the kinds P from below (top first) and leaves nodes of the kinds Q (top first).
-   A symbol not listed (every terminal, every mid-rule action that only talks to the lexer) has the one effect ([], []).
-   All effects of one symbol consume the same number of nodes. *)
-Definition eff : Type := (list kind * list kind)%type.
-Definition O1 : list eff := [([], [KOther])].
-Definition E2 : list eff := [([], [KOther]); ([], [KContext])].               (* an expression: a Context or anything else *)
-Definition opt (k : kind) : list eff := [([], []); ([], [k])].                (* `*_tail`: nothing after the last item, else the collection *)
-
-Definition sigs : list (string * list eff) := [
-  ("$accept", [([], [KOther]); ([], [KContext]); ([], [KExpressionList])]);
-  ("feel", [([], [KOther]); ([], [KContext]); ([], [KExpressionList])]);
-  ("expression", E2); ("boxed_expression", E2); ("textual_expression", E2);
-  ("textual_expressions", [([], [KExpressionList])]);
-  ("unary_tests", [([], [KOther]); ([], [KExpressionList])]);
-  ("positive_unary_tests", [([], [KExpressionList])]);
-  ("comparison_in", [([], [KExpressionList])]);
-  ("simple_positive_unary_test", O1); ("interval", O1); ("interval_start", O1); ("interval_end", O1);
-  ("endpoint", [([], [KOther]); ([], [KQualifiedName])]);
-  ("simple_value", [([], [KOther]); ([], [KQualifiedName])]);
-  ("literal", O1); ("simple_literal", O1);
-  ("$@7", O1);                                                                (* literal_date_time: the name of the function *)
-  ("context", [([], [KContext])]); ("context_entries", [([], [KContext])]); ("context_entry", O1);
-  ("context_entry_tail", opt KContext); ("key", O1);
-  ("list", O1); ("list_items", [([], [KCommaList])]); ("list_tail", opt KCommaList);
-  ("parameters", [([KOther], [KOther]); ([KContext], [KOther])]);             (* consumes the invoked expression *)
-  ("named_parameters", [([], [KNamedParams])]); ("named_parameter", O1); ("named_parameters_tail", opt KNamedParams);
-  ("positional_parameters", [([], [KPositionalParams])]); ("positional_parameters_tail", opt KPositionalParams);
-  ("qualified_name", [([], [KQualifiedName])]);
-  ("type", [([], [KOther]); ([], [KQualifiedName]); ([], [KContextType])]);
-  ("context_type_entries", [([], [KContextType])]); ("context_type_entry", O1); ("context_type_entry_tail", opt KContextType);
-  ("function_type_parameters", [([], [KParamTypes])]); ("function_type_parameters_tail", opt KParamTypes);
-  ("iteration_contexts", [([], [KIterationContexts])]); ("iteration_context", O1);
-  ("$@16", O1);                                                               (* iteration_context_variable_name *)
-  ("iteration_context_value", [([KOther], [KOther])]);                        (* consumes the variable name *)
-  ("quantified_expressions", [([], [KQuantifiedContexts])]); ("quantified_expression", O1);
-  ("$@18", O1);                                                               (* quantified_expression_variable_name *)
-  ("function_definition", O1);
-  ("formal_parameters", [([], [KFormalParams])]);
-  ("$@20", [([KOther], [KFormalParams])]);                                    (* formal_parameters_first *)
-  ("formal_parameters_tail", [([KFormalParams], [KFormalParams])]);
-  ("$@21", [([KOther; KFormalParams], [KFormalParams])]);                     (* formal_parameters_tail: appends to the collection below *)
-  ("formal_parameter", O1); ("external", O1)]%string.
-
-Definition sig_of (s : string) : list eff :=
-  match find (fun p => String.eqb (fst p) s) sigs with Some (_, l) => l | None => [([], [])] end.
-
-Definition preconds (s : string) : list (list kind) := map fst (sig_of s).
-
-(* the values the lexer attaches to the terminals (a nonterminal leaves YyState) *)
-Definition aval_of (s : string) : aval :=
-  if String.eqb s "NAME"%string then AVName else
-  if String.eqb s "NAME_DATE_TIME"%string then AVNameDateTime else
-  if String.eqb s "BUILT_IN_TYPE_NAME"%string then AVBuiltIn else
-  if String.eqb s "NUMERIC"%string then AVNumeric else
-  if String.eqb s "STRING"%string then AVString else
-  if String.eqb s "BOOLEAN"%string then AVBoolean else
-  if String.eqb s "NULL"%string then AVNull else AVAny.
-
-(* the symbols in front of a mid-rule action `$@k` in the one rule it occurs in: they lie on the stacks when `$@k` is reduced *)
-Fixpoint before (x : string) (rhs : list string) : option (list string) :=
-  match rhs with
-  | [] => None
-  | y :: r => if String.eqb x y then Some [] else match before x r with Some p => Some (y :: p) | None => None end
-  end.
-
-Definition ctx_of (lhs : string) : list string :=
-  match flat_map (fun r => match before lhs (snd (snd r)) with Some p => [p] | None => [] end) grammar_rules with
-  | [p] => p
-  | _ => []
-  end.
-
-Definition avals (lhs : string) (rhs : list string) : list aval := map aval_of (rev (ctx_of lhs ++ rhs)).
-
-Fixpoint prefix_eqb (p st : list kind) : bool :=
-  match p, st with
-  | [], _ => true
-  | x :: p', y :: st' => kind_eqb x y && prefix_eqb p' st'
-  | _ :: _, [] => false
-  end.
-
-(* the known parts of the node stack after one more symbol: every effect of the symbol whose P lies on top applies;
-   None when no effect applies (what the symbol needs is not guaranteed to be there) *)
-Definition step_sym (sts : list (list kind)) (s : string) : option (list (list kind)) :=
-  fold_right (fun st acc =>
-    match acc with
-    | None => None
-    | Some out =>
-      match filter (fun e => prefix_eqb (fst e) st) (sig_of s) with
-      | [] => None
-      | alts => Some (map (fun e => snd e ++ skipn (List.length (fst e)) st) alts ++ out)
-      end
-    end) (Some []) sts.
-
-Definition stacks_after (rhs : list string) (sts : list (list kind)) : option (list (list kind)) :=
-  fold_left (fun acc s => match acc with Some x => step_sym x s | None => None end) rhs (Some sts).
-
-Definition aact (r : Z) (len : nat) (avs : list aval) (ks : list kind) : option (list kind) :=
-  match ract_at r with
-  | RNoAction => Some ks
-  | RAct a => aapply a len avs ks
-  | RUnknown => None
-  end.
-
-Definition eff_in (p q : list kind) (l : list eff) : bool := existsb (fun e => kinds_eqb (fst e) p && kinds_eqb (snd e) q) l.
-
-(* rule r = lhs: rhs is well typed: from every P the left-hand side may consume, through every combination of effects of the
-   right-hand side symbols, the action succeeds on kinds and leaves a Q with (P, Q) a declared effect of the left-hand side *)
-Definition rule_ok (rule : Z * (string * list string)) : bool :=
-  let '(r, (lhs, rhs)) := rule in
-  let avs := avals lhs rhs in
-  forallb (fun p0 =>
-    match stacks_after rhs [p0] with
-    | None => false
-    | Some sts =>
-      forallb (fun st => match aact r (List.length rhs) avs st with Some q => eff_in p0 q (sig_of lhs) | None => false end) sts
-    end) (preconds lhs).
-
-(* the grammar read from feel.y fits the tables: rules numbered 1..n with n + 1 = |YY_R2|, right-hand side lengths = YY_R2,
-   and two rules have the same left-hand side name exactly when YY_R1 gives them the same symbol number *)
-Definition grammar_fits : bool :=
-  forallb (fun p => (fst (fst p) =? Z.of_nat (snd p))%Z) (combine grammar_rules (seq 1 (List.length grammar_rules)))
-  && Nat.eqb (S (List.length grammar_rules)) (List.length yy_r2)
-  && forallb (fun r => Z.of_nat (List.length (snd (snd r))) =? zn t_r2 (fst r))%Z grammar_rules
-  && forallb (fun r1 => forallb (fun r2 =>
-       Bool.eqb (String.eqb (fst (snd r1)) (fst (snd r2))) (zn t_r1 (fst r1) =? zn t_r1 (fst r2))%Z) grammar_rules) grammar_rules.
-
-Definition sigs_uniform : bool :=
-  forallb (fun s => match snd s with [] => false | e :: l => forallb (fun e' => Nat.eqb (List.length (fst e')) (List.length (fst e))) l end) sigs.
-
-Definition all_rules_ok : bool := grammar_fits && sigs_uniform && forallb rule_ok grammar_rules.
-
-(* the rules that do not type (for the check's report when the theorem below breaks) *)
-Definition bad_rules : list Z := map fst (filter (fun r => negb (rule_ok r)) grammar_rules).
-
-(* what `reduce` in lalr.rs runs for a rule *)
-Definition run_action (r : Z) (len : nat) (vs : list tval) (ns : list ast) : ares :=
-  match ract_at r with RNoAction => ROk ns | RAct a => apply_act a len vs ns | RUnknown => RPanic end.
 
 (* finite: 150 rules, at most 8 combinations of effects each; re-proved whenever lalr.rs or feel.y changes *)
 Lemma all_rules_ok_true : all_rules_ok = true.
